@@ -61,6 +61,34 @@ WITNESSES = [
 ]
 
 
+_UTIL = "public fun helper(): Int { 10 }\nfun inner(): Int { 11 }\n"
+_SHAPES = ("import \"./util.gdn\" as util\nenum Shape { Circle, Square(Int) }\npublic fun area(n: Int): Int { n * util::helper() }\nfun secret(): Int { 2 }\n")
+PROJECTS = [
+    {"what": "a file that imports itself (unqualified)", "files": {"main.gdn": "import \"./main.gdn\"\npublic fun f(): Int { 1 }\nprintln(string_repr(f()))\n"}, "main": "main.gdn", "run_contains": ["1"]},
+    {"what": "a file that imports itself under an alias", "files": {"main.gdn": "import \"./main.gdn\" as me\npublic fun f(): Int { 1 }\nprintln(string_repr(me::f()))\n"}, "main": "main.gdn", "run_contains": ["1"]},
+    {"what": "two files that import each other", "files": {"a.gdn": "import \"./b.gdn\"\npublic fun fa(): Int { 1 }\nprintln(string_repr(fb()))\n", "b.gdn": "import \"./a.gdn\"\npublic fun fb(): Int { fa() + 1 }\n"},
+     "main": "a.gdn", "cmds": ["check"]},
+    {"what": "a cycle of three files with aliases", "files": {"a.gdn": "import \"./b.gdn\" as b\npublic fun fa(): Int { 1 }\nprintln(string_repr(b::fb()))\n", "b.gdn": "import \"./c.gdn\" as c\npublic fun fb(): Int { c::fc() + 1 }\n", "c.gdn": "import \"./a.gdn\" as a\npublic fun fc(): Int { 5 }\n"},
+     "main": "a.gdn", "cmds": ["check"]},
+    {"what": "the same missing file imported twice", "files": {"main.gdn": "import \"./nope.gdn\"\nimport \"./nope.gdn\" as n\nprintln(\"x\")\n"}, "main": "main.gdn", "cmds": ["check"], "check_contains": ["No such file"]},
+    {"what": "a non-public fun reached through an alias", "files": {"util.gdn": _UTIL, "main.gdn": "import \"./util.gdn\" as util\nprintln(string_repr(util::inner()))\n"}, "main": "main.gdn",
+     "check_contains": ["inner"], "run_contains": ["not marked as"]},
+    {"what": "a variant of a non-public enum reached through an alias", "files": {"util.gdn": _UTIL, "shapes.gdn": _SHAPES, "main.gdn": "import \"./shapes.gdn\" as shapes\nprintln(string_repr(shapes::Circle))\n"}, "main": "main.gdn",
+     "check_contains": ["Circle"], "run_contains": ["not marked as"]},
+    {"what": "a variant constructor of a non-public enum reached through an alias", "files": {"util.gdn": _UTIL, "shapes.gdn": _SHAPES, "main.gdn": "import \"./shapes.gdn\" as shapes\nprintln(string_repr(shapes::Square(3)))\n"}, "main": "main.gdn",
+     "check_contains": ["Square"], "run_contains": ["not marked as"]},
+    {"what": "the imported file's own import alias reached through an alias", "files": {"util.gdn": _UTIL, "shapes.gdn": _SHAPES, "main.gdn": "import \"./shapes.gdn\" as shapes\nprintln(string_repr(shapes::util))\n"}, "main": "main.gdn",
+     "check_contains": ["util"], "run_contains": ["not marked as"]},
+    {"what": "a public fun that uses its file's private items", "files": {"util.gdn": _UTIL, "shapes.gdn": _SHAPES, "main.gdn": "import \"./shapes.gdn\" as shapes\nprintln(string_repr(shapes::area(2)))\n"}, "main": "main.gdn",
+     "run_contains": ["20"], "check_not_contains": ["Error"]},
+]
+BOUNDED = [
+    {"name": "import_projects", "kind": "project-corpus", "props": ["C34"], "input": PROJECTS, "n_inputs": len(PROJECTS),
+     "bound": "%d listed projects (self-imports, import cycles of two and three files, a missing file imported twice, non-public functions, enum variants, constructors and import aliases reached through an alias, a public function using private items): check and run must not crash or hang, and report the visibility error where one is due" % len(PROJECTS),
+     "expect": {}},
+]
+
+
 def _variants(src_text, enum):
     m = re.search(r"\benum\s+%s\s*\{" % enum, src_text)
     if not m:
